@@ -560,10 +560,47 @@ pub fn check_canaries() -> Option<String> {
 
 /// Install a silent panic hook and perform one warm-up panic so that the panic
 /// machinery's one-time allocations happen outside any attribution window.
+struct PanicNote {
+    len: usize,
+    buf: [u8; 400],
+    in_subject: bool,
+}
+struct PN(core::cell::UnsafeCell<PanicNote>);
+unsafe impl Sync for PN {}
+static PANIC_NOTE: PN = PN(core::cell::UnsafeCell::new(PanicNote { len: 0, buf: [0; 400], in_subject: false }));
+struct NoteWriter<'a>(&'a mut PanicNote);
+impl<'a> core::fmt::Write for NoteWriter<'a> {
+    fn write_str(&mut self, s: &str) -> core::fmt::Result {
+        let b = s.as_bytes();
+        let room = self.0.buf.len() - self.0.len;
+        let l = b.len().min(room);
+        self.0.buf[self.0.len..self.0.len + l].copy_from_slice(&b[..l]);
+        self.0.len += l;
+        Ok(())
+    }
+}
+
+/// Message and location of the most recent panic (recorded without allocating).
+pub fn last_panic() -> String {
+    let n = unsafe { &*PANIC_NOTE.0.get() };
+    String::from_utf8_lossy(&n.buf[..n.len]).replace('\n', " ")
+}
+/// Was the most recent panic raised inside the subject window (i.e. by crate code)?
+pub fn last_panic_in_subject() -> bool {
+    unsafe { (*PANIC_NOTE.0.get()).in_subject }
+}
+
 pub fn quiet_panics() {
     // panics raised inside the subject window are expected (contract violations under test)
     // and stay silent; a panic of the harness itself is reported
     std::panic::set_hook(Box::new(|info| {
+        {
+            use core::fmt::Write;
+            let n = unsafe { &mut *PANIC_NOTE.0.get() };
+            n.len = 0;
+            n.in_subject = in_subject();
+            let _ = write!(NoteWriter(n), "{}", info);
+        }
         if !in_subject() {
             let msg = format!("HARNESS PANIC: {}\n", info);
             sys::write_stderr(msg.as_bytes());
@@ -574,4 +611,37 @@ pub fn quiet_panics() {
         panic!("warm-up {}", 1);
     });
     exit_subject();
+}
+
+/// Run crate code inside the subject window and catch a panic: Err carries message and location.
+pub fn subject_try<R>(f: impl FnOnce() -> R) -> Result<R, String> {
+    let prev = st().in_subject;
+    st().in_subject = true;
+    let r = std::panic::catch_unwind(std::panic::AssertUnwindSafe(f));
+    let out = match r {
+        Ok(v) => Ok(v),
+        Err(p) => {
+            drop(p);
+            Err(last_panic())
+        }
+    };
+    st().in_subject = prev;
+    out
+}
+
+/// Top level of an engine process: a panic that nobody caught and that was raised inside the subject
+/// window is crate code panicking where no panic is allowed - reported like a crash (exit 70, CRASH line
+/// with the current crash note), so that the driver turns it into a replayable violation instead of a
+/// machinery error. A panic of the harness itself keeps exit status 101.
+pub fn run_engine(f: impl FnOnce()) {
+    let r = std::panic::catch_unwind(std::panic::AssertUnwindSafe(f));
+    if r.is_err() {
+        if last_panic_in_subject() {
+            st().in_subject = false;
+            let msg = format!("\nCRASH signal=PANIC(uncaught panic in crate code: {}) oom=0 note={}\n", last_panic(), sys::crash_note());
+            sys::write_stderr(msg.as_bytes());
+            std::process::exit(70);
+        }
+        std::process::exit(101);
+    }
 }
